@@ -199,6 +199,14 @@ class Gen:
             if not srcs:
                 return ["view", t, self.gen(("U", w), d + 1)]
             st = rs.choice(sorted(srcs))
+            if rs.below(3) == 0 and d < 3:
+                # slice of a slice (of a slice): the source is itself a BitVector a few bits wider, produced by
+                # another slice with a non-zero low bound most of the time -> chains of three and more levels
+                extra = rs.range(1, 3)
+                st2 = ("BV", w + extra)
+                inner = self.bv_slice_chain(st2, d + 1)
+                lo = rs.range(0, extra)
+                return ["slice", t, inner, lo + w - 1, lo]
             lo = rs.range(0, st[1] - w)
             return ["slice", t, self.gen(st, d + 1), lo + w - 1, lo]
         if c == "bitwise":
@@ -206,6 +214,23 @@ class Gen:
         if c == "inv":
             return ["inv", t, self.gen(t, d + 1)]
         return ["ite", t, self.cond(d + 1), self.gen(t, d + 1), self.gen(t, d + 1)]
+
+    def bv_slice_chain(self, t, d):
+        """a BitVector of width t[1] obtained as a slice of a wider port or of a further slice"""
+        rs = self.rs
+        w = t[1]
+        srcs = sorted(pt for pt in set(PORTS.values()) if pt[0] in ("U", "S", "BV") and pt[1] > w and (self.wide or pt[1] <= 16))
+        if not srcs:
+            return self.gen(t, d)
+        if rs.below(2) and d < 4 and w + 2 <= 14:
+            extra = rs.range(1, 3)
+            inner = self.bv_slice_chain(("BV", w + extra), d + 1)
+            lo = rs.range(1 if extra else 0, extra)
+            return ["slice", t, inner, lo + w - 1, lo]
+        st = rs.choice(srcs)
+        p = self.port(st)
+        lo = rs.range(min(1, st[1] - w), st[1] - w)
+        return ["slice", t, p, lo + w - 1, lo]
 
     def bit(self, d):
         rs = self.rs
@@ -215,6 +240,9 @@ class Gen:
         c = rs.weighted([(5, "port"), (3, "index"), (2, "rtindex"), (3, "bitop"), (1, "inv"), (1, "ite")])
         if c == "port":
             return self.port(t)
+        if c == "index" and rs.below(3) == 0:
+            w = rs.range(2, 5)
+            return ["index", t, self.bv_slice_chain(("BV", w), d + 1), rs.below(w)]
         if c == "index":
             st = rs.choice(sorted(pt for pt in set(PORTS.values()) if pt[0] in ("U", "S", "BV") and (self.wide or pt[1] <= 9)))
             return ["index", t, self.gen(st, d + 1), rs.below(st[1])]
